@@ -88,3 +88,28 @@ Proof.
   - split; [reflexivity|]. exists d4_tx, (d4_unit 1 false). cbn. tauto.
   - eexists. eexists. split; [vm_compute; reflexivity|]. split; reflexivity.
 Qed.
+
+(* ---- code-level tie (docs/py2coq.md): the CONTROL FLOW of call_variant_peptides_wrapper -- the three `try: .. except:`
+        regions with their success flag, the skip_failed / re-raise branches, the `continue` of the circRNA handler, the
+        denylist update between the fusion and the circRNA loop, the order of the add_peptide_anno calls -- translated
+        from /repo's current source by harness/translate/py2coq.py into coq/Gen/Py_wrapper.v on every run, is
+        extensionally equal to Wrapper.wrapper for the repaired shape (projected on peptide_anno and success_flags),
+        for every skip flag, main unit, fusion and circRNA unit list.  Stronger than the shape flags of
+        Gen/WrapperShape.v: it is about the statements, not about eleven recognised features of them. ---- *)
+From MoPep Require Gen.Py_wrapper.
+From MoPep Require Import Proofs.Py2CoqWrapperProofs.
+
+Theorem code_wrapper_translated : Py_wrapper.py_wrapper_untranslated = false.
+Proof. vm_compute. reflexivity. Qed.
+Print Assumptions code_wrapper_translated.
+
+Theorem code_wrapper_is_model : forall skip has_tx inner um fs cs,
+  Py_wrapper.py_wrapper skip has_tx inner um fs cs
+  = match wrapper shape_fixed skip
+            {| t_id := 0; t_invalid := false; t_empty := false; t_acc_invalid := false;
+               t_main := if has_tx && inner then Some um else None; t_fusions := fs; t_circs := cs |} with
+    | Ok st => Ok (w_anno st, w_flags st)
+    | Raise e => Raise e
+    end.
+Proof. exact code_wrapper_is_model_l. Qed.
+Print Assumptions code_wrapper_is_model.
